@@ -138,6 +138,12 @@ pub fn head_edits() -> Vec<TextCase> {
         t.push('€');
         out.push(TextCase { s: t, label: "head-edit".into() });
     }
+    // the text wrapped in a PAIR of characters (two coordinated edits: one at each end)
+    for (l, r) in [("\"", "\""), ("'", "'"), ("(", ")"), ("[", "]"), ("<", ">"), ("{", "}"), (" ", " "), ("\n", "\n"), ("`", "`"), ("\u{feff}", ""), ("", "\0"), ("enr:", ""), ("\"", ""), ("", "\"")] {
+        out.push(TextCase { s: format!("{l}{base}{r}"), label: "wrapped".into() });
+        out.push(TextCase { s: format!("{l}{}{r}", &base[4..]), label: "wrapped".into() });
+        out.push(TextCase { s: format!("enr:{l}{}{r}", &base[4..]), label: "wrapped".into() });
+    }
     // very long texts: the valid text followed by 10^4 / 10^6 symbols, a megabyte of symbols, a valid
     // text repeated 3000 times, 300 KB of padding
     out.push(TextCase { s: format!("{base}{}", "A".repeat(10_000)), label: "long-text".into() });
